@@ -1,4 +1,5 @@
 import PyamgV.Proofs.ExtC05ZSpd
+import PyamgV.Proofs.ExtC05ZY
 import PyamgV.Proofs.ExtC05BridgeEx
 
 /-! PyamgV (C05, extension E47): non-vacuity of `flag_denseM_spd_checked` -- on the two-level 3-point Poisson
@@ -38,8 +39,42 @@ theorem example_denseM_spd_jacobi (c : Cyc) (M : Mat ℚ) (h : denseM id Ac3 c [
 theorem spd_rejects : c05SpdCheck posR id Ac3 [L5J 2] = false ∧ jacB posR 2 A3 = false ∧
     c05SpdCheck posR id A3 [L5] = false := by decide +kernel
 
+/-- cf / fc Jacobi with `ω = 1` pass the non-expansiveness test on the 3-point Poisson matrix; they are strict exactly when
+every iteration count is at least one -/
+theorem cf_nonexp_example : nonExpB posR id A3 (.cfjac true 1 1 1 1) = true ∧ nonExpB posR id A3 (.cfjac false 1 2 1 0) = true ∧
+    strictB posR id A3 (.cfjac true 1 1 1 1) = true ∧ strictB posR id A3 (.cfjac true 1 1 1 0) = false := by decide +kernel
+
+def preCF : List Cfg := [⟨some "cf_jacobi", []⟩]
+def postCF : List Cfg := [⟨some "fc_jacobi", []⟩]
+def L5CF : Lvl ℚ := ⟨A3, P3, R3, [0, 2], .cfjac true 1 1 1 1, .cfjac false 1 1 1 1⟩
+
+theorem flagCF : flag preCF postCF [L5CF].length = some true := by decide
+theorem checkCF : c05Check id preCF postCF Ac3 [L5CF] = true := by decide +kernel
+theorem spdCF : c05SpdCheck posR id Ac3 [L5CF] = true := by decide +kernel
+
+/-- the executed cycle with `cf_jacobi` before and `fc_jacobi` after is symmetric positive definite -/
+theorem example_denseM_spd_cf (c : Cyc) (M : Mat ℚ) (h : denseM id Ac3 c [L5CF] = some M) :
+    M.size = 3 ∧ (∀ i j, i < 3 → j < 3 → mget M i j = mget M j i) ∧
+    ∀ x : Nat → ℚ, (∃ j, j < 3 ∧ x j ≠ 0) →
+      0 < ∑ i ∈ range 3, ∑ j ∈ range 3, x i * mget M i j * x j :=
+  flag_denseM_spd_checked_rat preCF postCF Ac3 [L5CF] flagCF checkCF spdCF c M h
+
+/-- the same hierarchy as a hierarchy of the extended model -/
+def L5Y : C05Y.LvlY ℚ := ⟨A3, P3, R3, [0, 2], .base (.gs 1 .forward 1), .base (.gs 1 .backward 1)⟩
+
+theorem base5 : toBaseH [L5Y] = some [L5] := rfl
+
+/-- the executed extended model on it: `denseMY` symmetric positive definite, nothing left to assume -/
+theorem example_denseMY_spd (c : Cyc) (M : Mat ℚ) (h : C05Y.denseMY id id Ac3 c [L5Y] = some M) :
+    M.size = 3 ∧ (∀ i j, i < 3 → j < 3 → mget M i j = mget M j i) ∧
+    ∀ x : Nat → ℚ, (∃ j, j < 3 ∧ x j ≠ 0) →
+      0 < ∑ i ∈ range 3, ∑ j ∈ range 3, x i * mget M i j * x j :=
+  flag_denseMY_spd_checked_rat pre post Ac3 [L5Y] [L5] base5 flag5 check5 spd5 c M h
+
 #print axioms spd5
+#print axioms example_denseMY_spd
 #print axioms example_denseM_spd
 #print axioms example_denseM_spd_jacobi
 #print axioms spd_rejects
+#print axioms example_denseM_spd_cf
 end PyamgV.C05ZEx
